@@ -57,3 +57,9 @@ package objline
 //@   modifies p.pos, region(bufreg(p.buf)), stream(p.r), *v
 //@   ensures [C18] err == nil ==> (*v <==> streamByte(p.r, old(pos(p.r))) == 1) && streamByte(p.r, old(pos(p.r))) <= 1 && pos(p.r) == old(pos(p.r)) + 1 && n == 1
 //@   ensures [C18] streamClean(p.r) && old(avail(p.r)) >= 1 && streamByte(p.r, old(pos(p.r))) <= 1 ==> err == nil
+
+// The time field of a commit is a fixed 16-byte slot: 10 decimal digits of Unix seconds, a space, and a 5-character zone.
+// (assumed of fmt/time: the %010d rule and the length of the "-0700" layout, /verif/spec/time.spec)
+//@ func EncodeTime
+//@   props C06
+//@   ensures [C06] 0 <= unixOf(t) && unixOf(t) < 10000000000 ==> len(result) == 16
